@@ -198,6 +198,13 @@ def check_object(obj, case) -> Optional[C.Failing]:
             d = canon.diff(c1, canon.canon(objs2[0]))
             if d:
                 return C.Failing(c03.sig_of(d, "xml", c1), f"{type(obj).__name__} via store document: {d[:200]}", case, d)
+            if c03.scribble(objs2[0]):
+                buf.seek(0)
+                objs3 = list(read_aas_xml_file(buf, failsafe=False))
+                d = canon.diff(c1, canon.canon(objs3[0])) if len(objs3) == 1 else "count"
+                if d:
+                    return C.Failing("xml:roundtrip:second-read-sees-edits-of-first", f"{type(obj).__name__} via store document, read again "
+                                     f"after the first result was edited in place: {d[:200]}", case, d)
     except Exception as e:
         return C.Failing(f"xml:roundtrip:raises:{type(e).__name__}", f"{type(obj).__name__}: {e!r}"[:300], case)
     return None
